@@ -7,7 +7,7 @@ import os
 import re
 import json
 
-from .. import common, mprun, export, skeleton, minipy as mp, mpsig
+from .. import common, mprun, mpmon, export, skeleton, minipy as mp, mpsig
 
 
 def programs(tier, seed):
@@ -51,37 +51,10 @@ def classify(p, bad):
 
 
 def run(rep):
-    tier = rep.tier
-    progs, gres = programs(tier, common.seed())
-    rep.add_tlc(gres)
-    wd = common.scratch('c05_%d' % os.getpid())
-    claims = [export.cfg_claims(export.analyse(p, upto='cfg')) for p in progs]
-    cf = os.path.join(wd, 'claims.json')
-    with open(cf, 'w') as f:
-        json.dump(claims, f)
-    bounds = dict(MaxDec=10) if tier == 'quick' else dict(MaxDec=12, MaxSteps=80)
-    res, wd2 = mprun.explore(progs, module='CfgSound', spec='MSpec', invariants=('Report',), env=dict(CLAIM_FILE=cf),
-                             bounds=bounds, name='c05', timeout=3000)
-    rep.add_tlc(res)
-    recs = res.json
-    if not recs:
-        raise common.MachineryError('no executions explored')
-    mprun.validate_model(progs, recs)
-    rep.set('programs', len(progs))
-    rep.set('executions', len(recs))
-    rep.set('model_validated_on_cpython', len(recs))
-    rep.validated(len(recs))      # each execution is a spec behaviour checked against the exported real graph
-    for r in recs:
-        if r['bad']:
-            p = progs[r['pid'] - 1]
-            sig, what = classify(p, r['bad'])
-            rep.violation(sig, what, dict(source=mp.render(p)[0], decisions=r['dec'], report=r['bad'],
-                                          graph=claims[r['pid'] - 1]))
-    for p in progs[:3]:
-        rep.sample(dict(source=mp.render(p)[0]))
-    rep.assume('MiniPy.tla is the reference semantics; every explored execution was reproduced by CPython in this run')
-    common.rmtree(wd)
-    common.rmtree(wd2)
+    def cls(p, b, claims):
+        return classify(p, '<<' + ', '.join(('"%s"' % x) if isinstance(x, str) else str(x) for x in b) + '>>')
+    mpmon.run_monitor(rep, 'CfgSound', cls, loop_else=True,
+                      claims_fn=lambda p: export.cfg_claims(export.analyse(p, upto='cfg')))
 
 
 def replay(path):
